@@ -411,7 +411,14 @@ def _build_matcher(e, env):
     if op == "MatchesStructure":
         attrs = env.order(e["attrs"])
         if env.alt and all(a[1]["op"] == "Equals" for a in attrs):
-            return M.MatchesStructure.byEquality(**{a[0]: bv(a[1]["ref"]) for a in attrs})
+            kw = {a[0]: bv(a[1]["ref"]) for a in attrs}
+            how = env.rnd.randrange(3)  # the three convenience constructors
+            if how == 0:
+                return M.MatchesStructure.byEquality(**kw)
+            if how == 1:
+                return M.MatchesStructure.byMatcher(M.Equals, **kw)
+            example = types.SimpleNamespace(**kw)
+            return M.MatchesStructure.fromExample(example, *[a[0] for a in attrs])
         return M.MatchesStructure(**{a[0]: bm(a[1]) for a in attrs})
     if op in ("MatchesDict", "ContainsDict", "ContainedByDict"):
         return getattr(M, op)({env.cx.key(p[0]): bm(p[1]) for p in env.order(e["kms"])})
